@@ -17,14 +17,16 @@ META = {
     'property_id': 'C19',
     'design_ref': 'DESIGN.md section 4, C19',
     'technique': 'TLA+ models of lazy-compile locking and task isolation model-checked with TLC; TLC schedules '
-                 'driven on real threads (settrace line scheduler) and real asyncio tasks; traces judged by TLC',
+                 'driven on real threads (settrace line scheduler) and real asyncio tasks; traces judged by TLC; '
+                 'bounded shared-cache model (SharedCache.tla) + one-preemption sweep over every falcon source line',
     'level_text': 'All interleavings of 2-3 threads through the lazy router compilation are model-checked at '
                   'shared-access granularity (lock + re-check hold, each wrong design fails); TLC-generated and '
                   'preemption-bounded schedules are forced on real WSGI requests/threads and real ASGI tasks and '
                   'every response is compared with the serial one; yield-point traces are judged against the spec.',
-    'level_note': 'Granularity: source lines of falcon/routing/compiled.py for threads, await points (receive/send/'
-                  'middleware sleeps) for tasks; preemption inside C code or between bytecodes of one line is not '
-                  'explored. Bounded: 2-3 concurrent requests, <= 2 (quick) / 3 (thorough) preemptions.',
+    'level_note': 'Granularity: source lines for threads (shared-access lines of falcon/routing/compiled.py with up to '
+                  '2/3 preemptions and 2-3 threads; every source line of every falcon module with 1 preemption, 2 '
+                  'sampled, for request pairs), await points (receive/send/middleware/responder awaits) for tasks; '
+                  'preemption inside C code or between bytecodes of one line is not explored.',
 }
 
 
@@ -114,8 +116,10 @@ def build_asgi_app(gate):
                           'pref': req.client_prefers(['application/json', 'text/plain'])}
 
         async def on_post(self, req, resp, x, tenant=None):
-            doc = await req.get_media()
-            await gate()
+            try:
+                doc = await req.get_media()
+            finally:
+                await gate()       # e.g. an `async with` around the read: awaits between a failure and its rendering
             if 'urlencoded' in (req.content_type or ''):
                 doc = dict(sorted(dict(doc, **{k: v for k, v in req.params.items()}).items()))
             resp.media = {'route': 'a', 'x': x, 'doc': doc, 'tag': req.context.tag, 'tenant': tenant,
@@ -153,11 +157,14 @@ def request_pool():
             b'user=alice&pin=1111', chunks=[7]),
         Req('POST', b'/a/5', b'k=v', [('X-Tag', 't12'), ('Content-Type', 'application/x-www-form-urlencoded')],
             b'user=bob&pin=2222', chunks=[4]),                                                # same query string as #10
+        Req('POST', b'/a/5', b'', [('X-Tag', 't13'), ('Content-Type', 'application/json')], b'{"k": \xff}', chunks=[3]),
+        Req('POST', b'/a/5', b'', [('X-Tag', 't14'), ('Content-Type', 'application/json')], b'{"k": [1, 2,}', chunks=[6]),
     ]
 
 
 NAMES = ['GET /a/3', 'GET /b/7', 'POST /a/5', 'GET /b/13 (400)', 'GET /a/nope (404)', 'PUT /b/2 (405)',
-         'GET /a/3 #2', 'POST /a/5 #2', 'GET /a/3?q=one #3', 'GET /b/7 #2', 'POST form alice', 'POST form bob']
+         'GET /a/3 #2', 'POST /a/5 #2', 'GET /a/3?q=one #3', 'GET /b/7 #2', 'POST form alice', 'POST form bob',
+         'POST bad json #1', 'POST bad json #2']
 
 
 def proj(res):
@@ -169,8 +176,21 @@ def proj(res):
 # threads
 # ------------------------------------------------------------------------------------------------
 
+def whole_reads(reqs):
+    """WSGI servers hand the app a buffered input whose read(n) is never short; the pool's chunk lists are
+    for the ASGI event sizes only."""
+    import copy
+    out = []
+    for r in reqs:
+        r = copy.copy(r)
+        r.chunks = None
+        out.append(r)
+    return out
+
+
 def run_threads(reqs, choices=(), prefer=None):
     """Run the requests concurrently (one thread each) on a fresh WSGI app under the line scheduler."""
+    reqs = whole_reads(reqs)
     import falcon.routing.compiled as C
     from engine import threadsched
     from engine.drivers import wsgi_call
@@ -207,7 +227,7 @@ def run_threads(reqs, choices=(), prefer=None):
 def serial_answers(reqs):
     from engine.drivers import wsgi_call
     out = []
-    for r in reqs:
+    for r in whole_reads(reqs):
         app, _ = build_wsgi_app()
         out.append(('ok', proj(wsgi_call(app, r))))
     return out
@@ -361,8 +381,8 @@ def run(ctx):
 
     pool = request_pool()
     names = NAMES
-    pairs = [(0, 8), (1, 9), (10, 11), (0, 6), (2, 7), (0, 1), (2, 1), (0, 3), (4, 2), (5, 0), (6, 0)]
-    triples = [(0, 8, 1), (1, 9, 10), (0, 6, 2), (0, 1, 2), (3, 4, 5), (2, 7, 6)]
+    pairs = [(0, 8), (1, 9), (10, 11), (0, 6), (2, 7), (0, 1), (2, 1), (0, 3), (4, 2), (5, 0), (6, 0), (12, 13)]
+    triples = [(0, 8, 1), (1, 9, 10), (0, 6, 2), (0, 1, 2), (3, 4, 5), (2, 7, 6), (12, 13, 2)]
 
     def check_threads(idx, choices=(), prefer=None, origin=''):
         reqs = [pool[i] for i in idx]
@@ -455,7 +475,7 @@ def run(ctx):
     ctx.extra['tlc_task_schedules'] = len(tscheds)
     serial_t = serial_tasks(pool)
     step = max(1, len(tscheds) // ctx.pick(150, 924))
-    combos = pairs + [(3, 0), (7, 2), (11, 10), (9, 1)]
+    combos = pairs + [(3, 0), (7, 2), (11, 10), (9, 1), (13, 12), (12, 2)]
     n = 0
     for k, sc in enumerate(tscheds[::step]):
         idx = combos[k % len(combos)]
@@ -485,8 +505,15 @@ def run(ctx):
     ctx.traces_validated += n
     ctx.progress('leg A tasks done: %d interleavings' % n)
 
+    # ---- wide thread leg: every falcon source line is a preemption point --------------------------
+    from checks import c19_wide
+    c19_wide.leg(ctx)
+
 
 def replay(ctx, case):
+    if case.get('kind') == 'wide':
+        from checks import c19_wide
+        return c19_wide.replay(ctx, case)
     pool = request_pool()
     names = NAMES
     idx = [names.index(n) for n in case['requests']]
